@@ -97,8 +97,10 @@ class IncomingMessageHandler(IncomingMessageHandler15):
             }
             for key, buffer_message in node_messages.items():
                 await gateway.send(buffer_message, message_buffer=False)
-                # clear the sleep buffer for this node
-                buffer.pop(key)
+                # Clear the sent message from the sleep buffer, unless it was
+                # replaced by a newer message while we were sending.
+                if buffer.get(key) is buffer_message:
+                    buffer.pop(key)
 
         return message
 
